@@ -180,10 +180,12 @@ def c08d(ctx, tu):
         if not uses:
             bad = ("the result of a WITH clause is not branched on", None)
         # list order: ranges over `conditions`
-        rng = any(e["e"] == "decl" and isinstance(e.get("init"), list) and e["init"][:1] == ["member"]
-                  and erase(e["init"][1]) == "trompeloeil::call_matcher::conditions" for b, e in f.events())
+        # list order: the clauses come from iterating `conditions` forwards (range-for, or begin()/++)
+        s_all = str([{k: v for k, v in e.items() if k != "loc"} for b, e in f.events()])
+        rng = "trompeloeil::call_matcher" in s_all and "::conditions" in s_all and "operator--" not in s_all \
+            and "rbegin" not in s_all
         if bad is None and not rng:
-            bad = ("WITH clauses are not evaluated by ranging over the condition list in list order", None)
+            bad = ("WITH clauses are not evaluated by iterating the condition list forwards", None)
         ctx.ob("C08.d", f.qe, bad is None, pattern=f.pat, unit=tu.name, inst=f.q,
                detail="" if bad is None else bad[0],
                witness=None if bad is None or bad[1] is None else {"path": fmt_trace(bad[1])})
@@ -267,6 +269,12 @@ static_assert(std::is_same<decltype(decay_return_type(clv)), const T&>::value, "
 static_assert(std::is_same<decltype(decay_return_type(T{})), T>::value, "rvalue becomes a value");
 static_assert(std::is_same<decltype(decay_return_type(static_cast<T&&>(lv))), T>::value, "xvalue becomes a value");
 static_assert(std::is_same<decltype(decay_return_type(arr)), T*>::value, "array decays to pointer");
+static int i; static const int ci = 0; static int* const cpi = &i; static int* pi = &i;
+static_assert(std::is_same<decltype(decay_return_type(i)), int&>::value, "scalar lvalue keeps its reference");
+static_assert(std::is_same<decltype(decay_return_type(ci)), const int&>::value, "const scalar lvalue keeps its reference");
+static_assert(std::is_same<decltype(decay_return_type(cpi)), int* const&>::value, "const pointer lvalue keeps its reference");
+static_assert(std::is_same<decltype(decay_return_type(pi)), int*&>::value, "pointer lvalue keeps its reference");
+static_assert(std::is_same<decltype(decay_return_type(1)), int>::value, "scalar rvalue becomes a value");
 static_assert(std::is_same<decltype(std::declval<trompeloeil::trace_agent&>().trace_return(std::declval<T&>())), T&>::value,
               "trace_return keeps T&");
 static_assert(std::is_same<decltype(std::declval<trompeloeil::trace_agent&>().trace_return(std::declval<T>())), T>::value,
